@@ -153,7 +153,7 @@ def gen_history(rng, version, nops=None, fail_rate=0.25):
             ops.append(('rm', n))
         elif r < 0.5 and segs:
             old = rng.choice(segs)
-            new = fresh() if rng.random() > fail_rate else rng.choice([n for _, n in named] or [old])
+            new = fresh() if rng.random() > fail_rate else rng.choice([n for _, n in named] + ['a b', 'x\ty', '', 'q+,'])
             ops.append(('rename', old, new))
             if new not in [n for _, n in named]:
                 segs = [new if x == old else x for x in segs]
